@@ -143,6 +143,8 @@ def run(tier, build, replay=None):
             items.append((len(bases) - 1, c["fault"]))
         ncorp = len(bases)
         nsmall, nrand = (9, 0) if quick else (60, 40)
+        if str(build.translator.get("parser", "")).startswith("fallback"):
+            nsmall *= 2          # the parser fragment was not recognised: the model runs on the accepted tables, boost the stream
         for k in range(nsmall):
             bases.append(l1faults.small_base(rng, k, full_layout=(k % 3 != 2)))
         for k in range(nrand):
@@ -176,7 +178,7 @@ def run(tier, build, replay=None):
     for k, ((bi, f), r) in enumerate(zip(items, results)):
         case = {"base": bases[bi], "fault": f}
         cls = f["cls"]
-        st = classes.setdefault(cls, {"injected": 0, "impl_rejected": 0, "model_rejected": 0, "library_rejected": 0, "cli_runs": 0, "known": 0})
+        st = classes.setdefault(cls, {"injected": 0, "impl_rejected": 0, "model_rejected": 0, "library_rejected": 0, "cli_runs": 0})
         st["injected"] += 1
         if "harness_error" in r:
             out.violation(f"harness error while injecting {cls} at {f['where']}: {r['harness_error']}", case, tags={"harness"}, found_input=False)
@@ -197,9 +199,8 @@ def run(tier, build, replay=None):
             st["impl_rejected"] += 1
         else:
             tags = {cls, "accepted-malformed-input"}
-            if f.get("known"):
-                tags.add(f["known"])
-                st["known"] += 1
+            if f.get("first_empty"):
+                tags.add("repeated-table-after-empty-table")
             out.violation(f"{cls} at {f['where']} is accepted: parse_ods returns transactions instead of raising "
                           f"(table order {bases[bi].get('order')})", case, tags=tags)
         if mrej is None:
@@ -251,7 +252,7 @@ def run(tier, build, replay=None):
         seen = {}
         rot = 0
         for k, ((bi, f), r) in enumerate(zip(items, results)):
-            if f["cls"] == "valid-base" or bi not in small or f.get("known"):
+            if f["cls"] == "valid-base" or bi not in small:
                 continue
             n = seen.get(f["cls"], 0)
             # spread the sample over bases and positions: take every (stride)-th occurrence
@@ -298,7 +299,7 @@ def run(tier, build, replay=None):
             if j in opt_model and opt_model[j][0] != 0:
                 out.violation(f"option model rejects a default run of rp2_{country}", case, tags={"correspondence"}, found_input=False)
             continue
-        st = classes.setdefault(f["cls"], {"injected": 0, "impl_rejected": 0, "model_rejected": 0, "library_rejected": 0, "cli_runs": 0, "known": 0})
+        st = classes.setdefault(f["cls"], {"injected": 0, "impl_rejected": 0, "model_rejected": 0, "library_rejected": 0, "cli_runs": 0})
         st["cli_runs"] += 1
         if what == "option":
             st["injected"] += 1
@@ -344,7 +345,6 @@ def run(tier, build, replay=None):
         "python-dateutil decides whether a timestamp string carries a time zone (library); the model receives its verdict",
         "configparser / json / jsonschema reject files they cannot tokenise before RP2's own checks run (counted as library_rejected)",
         "argparse enforces the per-country choices of -m and the date format of -f/-t (exit status 2)",
-        "a repeated table is only detected when the earlier table of that type has data rows (known finding F11)",
         "an empty optional cell is not a fault; STAKING acquisitions may be non-positive; fee-typed disposals need no spot price; "
         "a transfer needs a spot price only when sent != received",
     ]
